@@ -30,7 +30,9 @@ SRC = {
           "x = 1\ninserted = 0\ny = 22\nz = 3\n",     # 10 insert a line before 'y = 2' and edit that line
           "x = 1\nother = 5\ny = 2\nz = 3\n",         # 11 another line inserted at the same place
           "x = 1\ny = 2\nz = 3  \n",                  # 12 trailing blanks on the last line
-          "x = 1\ny = 2\nz = 3\t\n"],                 # 13 a trailing tab on the last line
+          "x = 1\ny = 2\nz = 3\t\n",                  # 13 a trailing tab on the last line
+          "x = 1\r\ny = 2\r\nz = 3\r\n",              # 14 only the line terminators change (LF -> CRLF)
+          "x = 1\r\ny = 22\r\nz = 3\n"],               # 15 CRLF on two lines, one of them edited as well
     # an insertion before a line together with a character-level patch of that line
     "Q": ["a\nprint(x)     pass\nz\n",
           "a\nprint(x)     pass #ed\neta     pass\nz\n",
@@ -331,7 +333,7 @@ NEW_TEMPLATES = {
 
 # ------------------------------------------------------------------- actions
 # action name -> applies to cell types
-CODE_ACTIONS = ["keep", "del", "src1", "src2", "src3", "src4", "src6", "src7", "src8", "src9", "rerun", "ec",
+CODE_ACTIONS = ["keep", "del", "src1", "src2", "src3", "src4", "src6", "src7", "src8", "src9", "src14", "src15", "rerun", "ec",
                 "out_edit", "out_edit2", "out_clear", "out_add", "out_add2", "out_add_front", "out_del",
                 "out_del_last", "out_ec", "out_ptr", "rerun2", "out_edit_add", "out_edit2_add2", "out_edit_md",
                 "out_edit_ec", "out_edit2_ec", "edit_rerun", "md_src", "collapsed_src", "md_empty_add", "md_empty_set", "unstale_edit", "nums_add", "nums_append", "nums_replace", "tag_front", "tag_back", "md_scrolled_true",
